@@ -635,6 +635,9 @@ func ruleC19Panics(c *Checker) {
 			pos := p.Pos(pn.Pos())
 			kind := classifyPanic(p, fn, pn)
 			c.check(kind != "", R, name, "panic", pos, kind, "an explicit panic on an edge that is not a documented misuse / sealed-type default / init-time check: input may reach it")
+			if strings.HasPrefix(kind, "consistency check on the result of a third-party library call") {
+				checkSplitFirst(c, R, fn, b)
+			}
 			// a constructor documented to panic on an argument its sanitiser refuses: module
 			// callers must have put that very argument through the sanitiser (or a predicate
 			// wrapping it) first — a weaker test (fs.ValidPath alone) lets input reach the panic
@@ -1230,4 +1233,72 @@ func ruleC19NilField(c *Checker) {
 		}
 	}
 	c.check(n > 0, R, "-", "uses of lazily initialised fields", "-", fmt.Sprintf("%d use(s) examined", n), "no use of a nil-checked pointer field as a method receiver found (the rule has no instance)")
+}
+
+// checkSplitFirst backs the one structural fact the "cannot happen" panic
+// after the registry-address library call rests on: the library splits its
+// argument at the first "//", so the argument must have been cut at the FIRST
+// "//" too. The private splitter feeding the library call is located by
+// provenance; every search for "//" in it whose result bounds a slice must be
+// a first-occurrence search (strings.Index / strings.Cut / SplitN(…, 2)).
+func checkSplitFirst(c *Checker, R string, fn *ssa.Function, panicBlock *ssa.BasicBlock) {
+	p := c.P
+	var lib *ssa.Call
+	for d := panicBlock.Idom(); d != nil && lib == nil; d = d.Idom() {
+		ifi, ok := d.Instrs[len(d.Instrs)-1].(*ssa.If)
+		if !ok {
+			continue
+		}
+		for v := range p.backSlice(ifi.Cond, 0) {
+			if cl, ok := v.(*ssa.Call); ok {
+				if g := cl.Common().StaticCallee(); g != nil && !p.InModule(g) && calleeObj(cl) != nil && calleeObj(cl).Pkg() != nil && strings.Contains(calleeObj(cl).Pkg().Path(), ".") {
+					lib = cl
+				}
+			}
+		}
+		break
+	}
+	if lib == nil {
+		return
+	}
+	name := p.FuncName(fn)
+	var splitter *ssa.Function
+	for _, a := range lib.Call.Args {
+		for v := range p.backSlice(a, 0) {
+			if cl, ok := v.(*ssa.Call); ok {
+				if g := cl.Common().StaticCallee(); g != nil && p.InModule(g) && g.Signature.Results().Len() == 2 {
+					splitter = g
+				}
+			}
+		}
+	}
+	if splitter == nil {
+		c.fail(R, name, "library argument was split off first", p.Pos(lib.Pos()), "the argument of "+fullName(calleeObj(lib))+" does not come from a module splitter: the 'cannot happen' panic behind it can be reached by any input that carries a sub-directory part")
+		return
+	}
+	n, bad := 0, ""
+	for g := range p.family(splitter) {
+		eachInstr(g, func(in ssa.Instruction) {
+			cl, ok := in.(*ssa.Call)
+			if !ok || calleeObj(cl) == nil || objPkgPath(calleeObj(cl)) != "strings" {
+				return
+			}
+			hasNeedle := false
+			for _, a := range cl.Call.Args {
+				if s2, ok := constString(a); ok && s2 == "//" {
+					hasNeedle = true
+				}
+			}
+			if !hasNeedle {
+				return
+			}
+			n++
+			switch calleeObj(cl).Name() {
+			case "Index", "Cut", "SplitN", "Contains", "HasPrefix":
+			default:
+				bad = calleeObj(cl).Name()
+			}
+		})
+	}
+	c.check(n > 0 && bad == "", R, name, "package part is cut at the first //", p.Pos(lib.Pos()), fmt.Sprintf("%s looks for \"//\" with first-occurrence searches only (%d)", p.FuncName(splitter), n), "the splitter "+p.FuncName(splitter)+" locates the sub-path separator with strings."+bad+" (or not at all): the package part handed to "+shortCallee(fullName(calleeObj(lib)))+" can still contain a \"//\", the library reports a sub-directory, and the 'cannot happen' panic behind the call is reached by an address such as ns/name/sys//a//b")
 }
